@@ -379,11 +379,52 @@ def run(ctx, report):
             a, b = n.body[0], n.orelse[0]
             if isinstance(a, ast.Assign) and isinstance(b, ast.Assign) and u(a.targets[0]) == u(b.targets[0]) == 'mafs[x86_afs.size]' and u(a.value) == 'x86_afs.u08':
                 WANT.append(('register operand size', b, u(b.value), 'self.opmode'))
-    # fixed immediates narrowed under the 16-bit operand size
+    # fixed immediates narrowed under the 16-bit operand size: the statements between the branch test and the
+    # computation of the byte count are evaluated for every (token, operand size, address size) combination
+    fixed_if = None
     for n in walk_no_nested(dis):
-        if isinstance(n, ast.If) and isinstance(n.test, ast.Compare) and u(n.test.comparators[0]) == 'u32' and isinstance(n.test.ops[0], ast.NotEq) \
-                and any(isinstance(x, ast.Assign) and u(x.targets[0]) == 'dib' for s in n.body for x in ast.walk(s)):
-            WANT.append(('fixed-width immediate narrowing', n, u(n.test.left), 'self.opmode'))
+        if isinstance(n, ast.If) and isinstance(n.test, ast.Compare) and u(n.test.left) == 'dib' and isinstance(n.test.ops[0], ast.In) \
+                and u(n.test.comparators[0]).replace(' ', '') == '[u08,s08,u16,s16,u32,s32]':
+            fixed_if = n
+    if fixed_if is None:
+        raise AnalysisError('_dis: branch for fixed-width immediates (dib in [u08, ..., s32]) not found')
+    pre = []
+    for st in fixed_if.body:
+        if isinstance(st, ast.Assign) and 'struct.calcsize' in u(st.value):
+            break
+        pre.append(st)
+    else:
+        raise AnalysisError('_dis: fixed-width immediate branch no longer computes its byte count with struct.calcsize')
+    from ..consteval import Evaluator, Obj, NotConst
+    toks = dict((k, getattr(afs_, k)) for k in ('u08', 's08', 'u16', 's16', 'u32', 's32')) if False else None
+    A = X.afs
+    names = {'u08': A.u08, 's08': A.s08, 'u16': A.u16, 's16': A.s16, 'u32': A.u32, 's32': A.s32}
+    EXPECT = {('u32', 'u16'): 'u16', ('s32', 'u16'): 's16'}
+    for tok in ('u08', 's08', 'u16', 's16', 'u32', 's32'):
+        for opm in ('u32', 'u16'):
+            for adm in ('u32', 'u16'):
+                me = Obj('self')
+                me.opmode, me.admode = names[opm], names[adm]
+                scope = dict(names)
+                scope.update({'self': me, 'dib': names[tok], 'x86_afs': A})
+                ev_ = Evaluator({})
+                ev_.env = scope
+                try:
+                    ev_.exec_stmts(pre, scope)
+                except NotConst as e:
+                    raise AnalysisError('_dis: narrowing of fixed-width immediates is outside the evaluable subset: %s' % e)
+                want = names[EXPECT.get((tok, opm), tok)]
+                inst = 'fixed immediate %s, operand size %s, address size %s' % (tok, opm, adm)
+                if scope['dib'] == want:
+                    R3.ok(inst, sample='%s under operand size %s is read as %s' % (tok, opm, want), nontrivial=(tok in ('u32', 's32')))
+                else:
+                    R3.violation(inst, 'mode:fixed-imm:%s:%s:%s' % (tok, opm, adm), 'a fixed-width immediate %s with operand size %s and address size %s is read as %s; IA-32 reads %s'
+                                 % (tok, opm, adm, scope['dib'], want), where(arch, fixed_if), witness='66 e8 12 34 90 90 must be 4 bytes long' if tok == 's32' else None)
+    from collections import Counter
+    kinds = Counter(w[0] for w in WANT)
+    for kind_, least in (('ModRM operand and displacement', 2), ('imm/ims immediate', 1), ('moffs offset', 2), ('moffs operand size', 1), ('register operand size', 2)):
+        if kinds.get(kind_, 0) < least:
+            raise AnalysisError('_dis: expected at least %d site(s) of kind "%s", found %d (the construct was rewritten: re-read and extend the rule)' % (least, kind_, kinds.get(kind_, 0)))
     for what, n, got, want in WANT:
         inst = '%s:%s' % (what, norm(n)[:60])
         if got == want:
@@ -554,6 +595,8 @@ def run(ctx, report):
 
 
 MUTANTS = [
+    ('s32-not-narrowed', 'miasmx/arch/ia32_arch.py', "                    if self.opmode !=u32:\n                        if dib == u32: dib = u16\n                        if dib == s32: dib = s16\n                    l = struct.calcsize", "                    if self.opmode !=u32 and dib == u32: dib = u16\n                    l = struct.calcsize", 'C01.D3'),
+    ('narrow-by-admode', 'miasmx/arch/ia32_arch.py', "                    if self.opmode !=u32:\n                        if dib == u32: dib = u16\n                        if dib == s32: dib = s16\n                    l = struct.calcsize", "                    if self.admode !=u32:\n                        if dib == u32: dib = u16\n                        if dib == s32: dib = s16\n                    l = struct.calcsize", 'C01.D3'),
     ('sib-scale', 'miasmx/arch/ia32_arch.py', "                    sib_rez[index][i] += 2**ss\n", "                    sib_rez[index][i] += 2*ss\n", 'C01.D4'),
     ('disp8-unsigned', 'miasmx/arch/ia32_arch.py', "                self.db_afs[i] = {x86_afs.ad:True, rm:1,x86_afs.imm:x86_afs.s08}", "                self.db_afs[i] = {x86_afs.ad:True, rm:1,x86_afs.imm:x86_afs.u08}", 'C01.D4'),
     ('rm16-swap', 'miasmx/arch/ia32_arch.py', "                                             [_si, _di][rm%2]:1,\n                                             [_bx, _bp][(rm>>1)%2]:1}\n            elif mod in [1,2]:", "                                             [_si, _di][rm%2]:1,\n                                             [_bp, _bx][(rm>>1)%2]:1}\n            elif mod in [1,2]:", 'C01.D4'),
